@@ -31,7 +31,7 @@ class Coll(Term):
 
 class Event:
     __slots__ = ("kind", "op", "target", "opts", "line", "file", "failed",
-                 "guards", "depth", "via", "args", "text", "in_comp", "env")
+                 "guards", "depth", "via", "args", "text", "in_comp", "env", "ncond")
 
     def __init__(self, kind, op=None, target=None, opts=None, line=0, file="",
                  guards=(), depth=0, via=(), args=(), text="", in_comp=False):
@@ -49,6 +49,7 @@ class Event:
         self.text = text
         self.in_comp = in_comp
         self.env = None
+        self.ncond = 0
 
     def copy(self):
         e = Event(self.kind, self.op, self.target, self.opts, self.line,
@@ -56,6 +57,7 @@ class Event:
                   self.text, self.in_comp)
         e.failed = self.failed
         e.env = self.env
+        e.ncond = self.ncond
         return e
 
     def key(self):
@@ -201,6 +203,7 @@ class Frame:
         e = Event(kind, guards=tuple(self.guards), depth=self.depth, via=self.via,
                   file=self.module.relpath, in_comp=bool(self.in_comp), **kw)
         e.env = dict(p.env)
+        e.ncond = len(p.conds)
         p.events.append(e)
         return e
 
@@ -1274,6 +1277,9 @@ class Frame:
             self.ev(p, "call", text="<depth-cap>", line=getattr(node, "lineno", 0))
             return [(p, Opaque("depth-cap"))]
         self.ctx.inlined += 1
+        if not isinstance(fn, ast.Lambda):
+            self.ev(p, "enter", text=fn.name, args=tuple(v for k, v in bound.items()), line=getattr(node, "lineno", 0),
+                    target=Sym("args", tuple(Sym("kw:" + k, (v,)) for k, v in bound.items() if isinstance(v, Term))))
         fr = Frame(self.ctx, module, owner, selfterm, selfattrs, self.depth + 1,
                    via if via is not None else self.via,
                    f"{owner.name + '.' if owner else ''}{getattr(fn, 'name', '<lambda>')}")
